@@ -58,6 +58,10 @@ def check(case):
     except be.Stage:
         npref = None
     for bk in c.get("backends", BACKENDS):
+        if bk == "c" and ref.c_unsafe():
+            # an integer-literal quotient in the text: the C value of the rate itself is wrong (listed finding of C02), nothing to learn here
+            cm.note(res, "skipped:c:integer-quotient-territory(C02)")
+            continue
         def add(kind, what, inp, exp=None, act=None, detail=""):
             f = cm.fail(f"C05:{bk}:{kind}", what, dict(inp, backends=[bk]), exp, act, detail)
             if shr:
